@@ -107,6 +107,12 @@ def diffRes (impl model : RunRes) : Option (String × Nat) :=
   | .panic a, .ok _ => some (s!"impl-panic:{a}", 0)
   | .ok _, .panic b => some (s!"model-fault:{b}", 0)
 
+/-- main-loop fuel of the model for runs without an iteration cap (with a cap the result does not
+    depend on it, `C19_function_of_inputs`): generous for the size of the input and of what the
+    implementation returned, so that long traces are not cut short by the model's own budget -/
+def modelBudgetFor (c : CaseIn) (impl : RunRes) : Nat :=
+  4000 + 8 * c.trace.length + 4 * (match impl with | .ok evs => evs.length | .panic _ => 0)
+
 def modelBudget : Nat := 4000
 
 /-- per-property projections of a trace: a disagreement between model and implementation is
@@ -209,7 +215,7 @@ def run (cases : List CaseBlock) (args : List String) : IO Unit := do
         for (m, i) in p.input.ms.zipIdx do
           IO.println s!"server machine {i}: {repr m}"
       for (r, orc) in p.runs do
-        let (o, t0) := Mb.Sim.modelRun replayOracle modelBudget p.input r.run orc
+        let (o, t0) := Mb.Sim.modelRun replayOracle (modelBudgetFor p.input r.res) p.input r.run orc
         let mres := o.res t0
         match diffRes r.res mres with
         | some (what, i) =>
